@@ -141,27 +141,17 @@ func RuleIM1(c *Ctx) {
 		pk := cs.Pk
 		info := pk.TypesInfo
 		cf := c.CFG(pk, fd.Body)
-		// the base: variables assigned from UserTypes.Get
-		base := map[types.Object]bool{}
-		ast.Inspect(fd.Body, func(n ast.Node) bool {
-			as, ok := n.(*ast.AssignStmt)
-			if !ok || len(as.Rhs) != 1 {
-				return true
-			}
-			if call, ok := as.Rhs[0].(*ast.CallExpr); ok && Callee(info, call) == utGet {
-				if id, ok := as.Lhs[0].(*ast.Ident); ok {
-					base[info.ObjectOf(id)] = true
-				}
-			}
-			return true
-		})
-		if len(base) == 0 {
-			sc.Undecided(c.P.DeclName(fd), c.P.Pos(fd.Pos()), "the base user type lookup was not found")
-			continue
+		// what may be written: the schema that inherits (the receiver of Unshift and whatever
+		// is reached from it) and value copies. A store into a node of the catalog model
+		// through any other pointer - the base type as looked up, a child of it, a parameter
+		// that carries one - changes the base as declared.
+		scj := c.Named("catalog", "SchemaContentJSight")
+		var target types.Object
+		if r := Recv(cs.Call); r != nil {
+			target = cfgx.RootObj(info, r)
 		}
-		// rootedAtBase: follows aliases; a dereference copy (x := *p) breaks the link
-		var rooted func(e ast.Expr, depth int) bool
-		rooted = func(e ast.Expr, depth int) bool {
+		var allowed func(e ast.Expr, depth int) bool
+		allowed = func(e ast.Expr, depth int) bool {
 			if depth > 8 {
 				return false
 			}
@@ -169,14 +159,23 @@ func RuleIM1(c *Ctx) {
 			if root == nil {
 				return false
 			}
-			if base[root] {
+			if root == target {
 				return true
 			}
 			v, ok := root.(*types.Var)
-			if !ok || v.IsField() || !cf.AssignedOnce(root) {
+			if !ok || v.IsField() {
 				return false
 			}
-			// definition
+			if _, isPtr := v.Type().Underlying().(*types.Pointer); !isPtr {
+				if _, isSl := v.Type().Underlying().(*types.Slice); !isSl {
+					if _, isMap := v.Type().Underlying().(*types.Map); !isMap {
+						return true // a value copy
+					}
+				}
+			}
+			if !cf.AssignedOnce(root) {
+				return false
+			}
 			var def ast.Expr
 			ast.Inspect(fd.Body, func(n ast.Node) bool {
 				if as, ok := n.(*ast.AssignStmt); ok && len(as.Lhs) == len(as.Rhs) {
@@ -186,23 +185,19 @@ func RuleIM1(c *Ctx) {
 						}
 					}
 				}
-				if rs, ok := n.(*ast.RangeStmt); ok {
-					if id, ok := rs.Value.(*ast.Ident); ok && info.ObjectOf(id) == root {
-						def = rs.X
-					}
-				}
 				return true
 			})
 			if def == nil {
 				return false
 			}
-			if _, isCopy := ast.Unparen(def).(*ast.StarExpr); isCopy {
-				// x := *p : a value copy unless x's type is itself a pointer
-				if _, isPtr := v.Type().(*types.Pointer); !isPtr {
-					return false
+			// p := sc.ObjectProperty(k): reached from the inheriting schema
+			if call, ok := ast.Unparen(def).(*ast.CallExpr); ok {
+				if r := Recv(call); r != nil {
+					return allowed(r, depth+1)
 				}
+				return false
 			}
-			return rooted(def, depth+1)
+			return allowed(def, depth+1)
 		}
 		n := 0
 		bad := 0
@@ -212,19 +207,36 @@ func RuleIM1(c *Ctx) {
 				return true
 			}
 			for _, l := range as.Lhs {
-				if _, isId := ast.Unparen(l).(*ast.Ident); isId {
+				sel, isSel := ast.Unparen(l).(*ast.SelectorExpr)
+				if !isSel {
+					if ix, isIx := ast.Unparen(l).(*ast.IndexExpr); isIx {
+						// an element store into a Children slice of a node
+						if s2, ok := ast.Unparen(ix.X).(*ast.SelectorExpr); ok {
+							sel, isSel = s2, true
+						}
+					}
+				}
+				if !isSel {
+					continue
+				}
+				// only stores into nodes of the schema model
+				t := info.TypeOf(sel.X)
+				if p, ok := t.(*types.Pointer); ok {
+					t = p.Elem()
+				}
+				if scj == nil || t == nil || !types.Identical(t, scj) {
 					continue
 				}
 				n++
-				if rooted(l, 0) {
+				if !allowed(sel.X, 0) {
 					bad++
-					sc.Violation(fmt.Sprintf("%s:store#%d", c.P.DeclName(fd), n), c.P.Pos(as.Pos()), "the store to "+types.ExprString(l)+" goes through a pointer into the base user type: inheriting changes the base as declared (and every other schema that inherits from it)")
+					sc.Violation(fmt.Sprintf("%s:store#%d", c.P.DeclName(fd), n), c.P.Pos(as.Pos()), "the store to "+types.ExprString(l)+" goes through a pointer that is neither the inheriting schema nor a value copy: inheriting changes the base as declared (and every other schema that inherits from it)")
 				}
 			}
 			return true
 		})
 		if bad == 0 {
-			sc.Holds(c.P.DeclName(fd), c.P.Pos(fd.Pos()), fmt.Sprintf("%d field stores, none through the base type", n))
+			sc.Holds(c.P.DeclName(fd), c.P.Pos(fd.Pos()), fmt.Sprintf("%d stores into schema nodes, all into the inheriting schema or a value copy", n))
 			sc.Holds(c.P.DeclName(fd)+":copy", c.P.Pos(fd.Pos()), "inherited nodes are inserted as value copies")
 		}
 		// every copy that is handed on carries the mark of THIS base: `vv := *v ... &vv` is
@@ -2325,6 +2337,17 @@ func pa1Allowed(info *types.Info, cf *cfgx.Func, fa cfgx.Fact, notationT *types.
 		return ok
 	case *ast.BinaryExpr:
 		switch x.Op {
+		case token.LSS, token.LEQ, token.GTR, token.GEQ:
+			// the bound test of an index loop (`i < len(xs)`): one side is an integer local
+			for _, side := range []ast.Expr{x.X, x.Y} {
+				if id, ok := ast.Unparen(side).(*ast.Ident); ok {
+					if v, ok := info.ObjectOf(id).(*types.Var); ok && !v.IsField() {
+						if b, ok := v.Type().Underlying().(*types.Basic); ok && b.Info()&types.IsInteger != 0 {
+							return true
+						}
+					}
+				}
+			}
 		case token.EQL, token.NEQ:
 			if isNilIdentExpr(info, x.X) || isNilIdentExpr(info, x.Y) {
 				return true
